@@ -8,6 +8,7 @@ import (
 	"sync/atomic"
 	"time"
 
+	"github.com/plgd-dev/go-coap/v3/message/codes"
 	"github.com/plgd-dev/go-coap/v3/message/pool"
 	"github.com/plgd-dev/go-coap/v3/pkg/verifhook"
 
@@ -122,6 +123,22 @@ func staleGuard(rec *vr.Rec, reps int) {
 		rec.Count("stale_guard_interleavings_forced", 1)
 		if r.err != nil {
 			close(gate)
+			owg.Wait()
+			verifhook.Set(nil)
+			cc.Close()
+			continue
+		}
+		if rep%3 == 2 {
+			// the caller is quick: it has read the response and given it back before the parked loop goes on. Whatever
+			// that loop still does with the guard it looked up, it must not touch the message (a released message has no
+			// context any more; its object may already serve somebody else)
+			cc.ReleaseMessage(r.m)
+			o := cc.AcquireMessage(context.Background())
+			o.SetCode(codes.DELETE)
+			close(gate)
+			time.Sleep(2 * time.Millisecond)
+			cc.ReleaseMessage(o)
+			rec.Count("stale_guard_caller_released_before_the_parked_loop_resumed", 1)
 			owg.Wait()
 			verifhook.Set(nil)
 			cc.Close()
